@@ -164,7 +164,7 @@ func c14KindOK(ty, io string, v any) bool {
 }
 
 func genC14(c *Ctx) {
-	c.Rule = "exhaustive: every function of ListFunctions() x 10 receiver types (String, Number, Boolean, Object, Any; Single and Array) x conformant argument lists (exact count; variadic 0..2) and one over-long list, validated against a schema `input: {recv: <type>}`; oracle from the descriptor table: accept iff known, no more arguments than declared, ValidOn admits the receiver type, reported type = Returns (element type for First/Last/Index on a typed list); pairs whose only mismatch is Single-vs-Array under ValidOn Any are unspecified (class unspecified/..., not enforced). Every accepted conformant call is evaluated on data instantiated from the schema: the result must have the reported kind (array-ness only for Array results) or fail with a data-dependent error (Parse* on text that is not a document). Lists of strings that read as numbers (\"12\", \"-0.50\", \"1e3\", \"007\") are evaluated with First/Last/Index only (the element comes back as the string the validator reports); a function applied to such a string takes it as a number by design, which the sibling properties exclude in words (`strings that are not numerals`). Then random chains of two and three calls, validated and evaluated the same way. distinct = distinct (class, function, verdict)"
+	c.Rule = "exhaustive: every function of ListFunctions() x 10 receiver types (String, Number, Boolean, Object, Any; Single and Array) x conformant argument lists (exact count; variadic 0..2) and over-long lists (one more literal; the surplus made of path or group arguments, alone or mixed with the literals), validated against a schema `input: {recv: <type>}`; oracle from the descriptor table: accept iff known, no more arguments than declared, ValidOn admits the receiver type, reported type = Returns (element type for First/Last/Index on a typed list); pairs whose only mismatch is Single-vs-Array under ValidOn Any are unspecified (class unspecified/..., not enforced). Every accepted conformant call is evaluated on data instantiated from the schema: the result must have the reported kind (array-ness only for Array results) or fail with a data-dependent error (Parse* on text that is not a document). Lists of strings that read as numbers (\"12\", \"-0.50\", \"1e3\", \"007\") are evaluated with First/Last/Index only (the element comes back as the string the validator reports); a function applied to such a string takes it as a number by design, which the sibling properties exclude in words (`strings that are not numerals`). Chains `x.AsArray().AsArray().F…` and `x.AsArray().F…` for every receiver (lists of lists: the element type is known one level deep). Then random chains of two and three calls, validated and evaluated the same way. distinct = distinct (class, function, verdict)"
 	fns := mpath.ListFunctions()
 	names := funcNames()
 	recvs := c14Receivers()
@@ -312,6 +312,14 @@ func genC14(c *Ctx) {
 			}
 			if over != nil {
 				run(rc, []c14Call{mkCall(fn, over)}, "single/over-long", false)
+				// the surplus made of arguments that are paths or groups (they count like the others)
+				fixed := over[:len(over)-1]
+				run(rc, []c14Call{mkCall(fn, append(append([]string{}, fixed...), "$.input.recv"))}, "single/over-long/path-argument", false)
+				run(rc, []c14Call{mkCall(fn, append(append([]string{}, fixed...), "{$.input.recv.IsNull()}"))}, "single/over-long/group-argument", false)
+				run(rc, []c14Call{mkCall(fn, append(append([]string{"$.input.recv"}, fixed...), "$.input.recv"))}, "single/over-long/path-arguments", false)
+				if len(fixed) > 0 {
+					run(rc, []c14Call{mkCall(fn, append(append([]string{fixed[0], "$.input.recv"}, fixed[1:]...), "$.input.recv", "$.input.recv"))}, "single/over-long/path-arguments", false)
+				}
 			}
 		}
 	}
@@ -319,6 +327,19 @@ func genC14(c *Ctx) {
 	for _, rc := range recvs {
 		run(rc, []c14Call{{N: "NoSuchFunction", K: 0, q: "NoSuchFunction()"}}, "single/unknown", false)
 		unknown++
+	}
+	// chains that wrap a value into a list of lists: the element type is known one level deep only
+	for _, rc := range recvs {
+		if rc.numeral {
+			continue
+		}
+		for _, tail := range [][]c14Call{{mkCall("First", nil)}, {mkCall("Last", nil)}, {mkCall("Index", []string{"0"})}, {mkCall("Count", nil)}, {mkCall("Sum", nil)}, {mkCall("Average", nil)}, {mkCall("Minimum", nil)},
+			{mkCall("First", nil), mkCall("First", nil)}, {mkCall("First", nil), mkCall("Left", []string{"1"})}, {mkCall("First", nil), mkCall("Add", []string{"1"})}, {mkCall("AsArray", nil), mkCall("First", nil)},
+			{mkCall("First", nil), mkCall("Count", nil)}, {mkCall("Last", nil), mkCall("IsNull", nil)}} {
+			calls := append([]c14Call{mkCall("AsArray", nil), mkCall("AsArray", nil)}, tail...)
+			run(rc, calls, "chain/list-of-lists", true)
+			run(rc, append([]c14Call{mkCall("AsArray", nil)}, tail...), "chain/list-of-one", true)
+		}
 	}
 	c.Exhaustive = true
 	// chains of two and three calls
